@@ -5,6 +5,7 @@ package c04
 // (bindings, bodies, path parameters, query parameters), plus a malformed stream.
 
 import (
+	"bytes"
 	"encoding/base64"
 	"fmt"
 	"math/rand"
@@ -12,6 +13,7 @@ import (
 	"strings"
 
 	"github.com/renbou/grpcbridge/transcoding"
+	"google.golang.org/protobuf/proto"
 	"google.golang.org/protobuf/reflect/protoreflect"
 	"google.golang.org/protobuf/types/dynamicpb"
 	"verif/harness/common"
@@ -19,7 +21,7 @@ import (
 
 var scalarKinds = []string{"bool", "int32", "sint32", "sfixed32", "int64", "sint64", "sfixed64", "uint32", "fixed32", "uint64", "fixed64", "float", "double", "string", "bytes"}
 var mapKeyKinds = []string{"bool", "int32", "sint32", "sfixed32", "int64", "sint64", "sfixed64", "uint32", "fixed32", "uint64", "fixed64", "string"}
-var wktPool = []string{"Timestamp", "Duration", "Int64Value", "Int32Value", "UInt64Value", "UInt32Value", "BoolValue", "StringValue", "BytesValue", "DoubleValue", "FloatValue", "FieldMask", "Struct", "Value", "Empty"}
+var wktPool = []string{"Timestamp", "Duration", "Int64Value", "Int32Value", "UInt64Value", "UInt32Value", "BoolValue", "StringValue", "BytesValue", "DoubleValue", "FloatValue", "FieldMask", "Struct", "Value", "Empty", "Any", "Any"}
 
 func lowerCamel(s string) string {
 	var b strings.Builder
@@ -209,7 +211,12 @@ func textFor(r *rand.Rand, s *Schema, kind, ref string, valid bool) string {
 		}
 		return common.Pick(r, []string{"abc", "1e400", "", "1,5", "--1"})
 	case "string":
-		return common.Pick(r, []string{"", "hello", "a b", "a,b", "x=y&z", "[k]", "ünï", "\xff", "true", "12", "a.b", "line\nbreak"})
+		if !valid || r.Intn(6) == 0 {
+			// ill-formed UTF-8: stray continuation / invalid lead bytes, overlong forms, surrogates, > U+10FFFF, truncated sequences
+			return common.Pick(r, []string{"\xff", "\x80", "a\xc0\x80", "\xc1\xbf", "\xe0\x80\x80", "\xe0\x9f\xbf", "\xed\xa0\x80", "\xed\xbf\xbf",
+				"\xf0\x80\x80\x80", "\xf0\x8f\xbf\xbf", "\xf4\x90\x80\x80", "\xf5\x80\x80\x80", "\xe2\x82", "ok\xe2", "\xf0\x9d\x84", "\xc3", "a,\xfe", "\xc3\x28", "\xe2\x28\xa1"})
+		}
+		return common.Pick(r, []string{"", "hello", "a b", "a,b", "x=y&z", "[k]", "ünï", "true", "12", "a.b", "line\nbreak", "€", "𝄞", "\xed\x9f\xbf", "\xee\x80\x80", "\xf4\x8f\xbf\xbf", "\xf0\x90\x80\x80", "\xc2\x80", "\xdf\xbf", "\xe0\xa0\x80", "\x00", "\x7f"})
 	case "bytes":
 		raw := common.RandBytes(r, r.Intn(7), nil)
 		if valid {
@@ -275,7 +282,10 @@ func textFor(r *rand.Rand, s *Schema, kind, ref string, valid bool) string {
 		case "DoubleValue", "FloatValue":
 			return textFor(r, s, "double", "-", valid)
 		case "FieldMask":
-			return common.Pick(r, []string{"a", "a,b.c", "", ",", "a,,b", "fooBar"})
+			if !valid {
+				return common.Pick(r, []string{"\xff", "a,\xed\xa0\x80", "a\xc0\x80,b", "\xe2\x82"})
+			}
+			return common.Pick(r, []string{"a", "a,b.c", "", ",", "a,,b", "fooBar", "é,€"})
 		case "Struct":
 			if valid {
 				return common.Pick(r, []string{`{}`, `{"a":1}`, `{"a":{"b":[1,"x",null,true]}}`})
@@ -321,6 +331,12 @@ func randScalar(r *rand.Rand, fd protoreflect.FieldDescriptor) protoreflect.Valu
 	panic("scalar kind")
 }
 
+// genCtx is the schema the generator is currently producing bodies for (generation is single-threaded).
+var genCtx struct {
+	b *Built
+	s *Schema
+}
+
 // fillRandom populates msg with random values of its fields (bounded depth). WKT messages whose JSON
 // form is special are filled so that they stay valid (Timestamp/Duration ranges, Value needs a kind).
 func fillRandom(r *rand.Rand, msg protoreflect.Message, depth int) {
@@ -339,6 +355,26 @@ func fillRandom(r *rand.Rand, msg protoreflect.Message, depth int) {
 		default:
 			msg.Set(md.Fields().ByName("bool_value"), protoreflect.ValueOfBool(true))
 		}
+		return
+	case "google.protobuf.Any":
+		// an Any naming a message type of the schema itself: only the request's own target can resolve it
+		if genCtx.b == nil || r.Intn(5) == 0 {
+			return
+		}
+		var users []string
+		for _, m := range genCtx.s.Msgs {
+			if !isWKT(m.Name) {
+				users = append(users, m.Name)
+			}
+		}
+		inner := dynamicpb.NewMessage(genCtx.b.Msg(users[r.Intn(len(users))]))
+		fillRandom(r, inner, 0)
+		raw, err := proto.MarshalOptions{Deterministic: true}.Marshal(inner)
+		if err != nil {
+			return
+		}
+		msg.Set(md.Fields().ByName("type_url"), protoreflect.ValueOfString("type.googleapis.com/"+string(inner.Descriptor().FullName())))
+		msg.Set(md.Fields().ByName("value"), protoreflect.ValueOfBytes(raw))
 		return
 	case "google.protobuf.FieldMask":
 		l := msg.Mutable(md.Fields().ByName("paths")).List()
@@ -407,6 +443,7 @@ func genBody(r *rand.Rand, b *Built, root, bodyPath string) []byte {
 	}
 	defer func() { _ = recover() }()
 	md := b.Msg(root)
+	genCtx.b = b
 	rootMsg := dynamicpb.NewMessage(md)
 	msg, fd, err := transcoding.VerifTraverseFieldPath(rootMsg, bodyPath)
 	if err != nil {
@@ -425,7 +462,7 @@ func genBody(r *rand.Rand, b *Built, root, bodyPath string) []byte {
 	if err != nil {
 		return []byte("{}")
 	}
-	return out
+	return bytes.ReplaceAll(out, []byte(b.Pkg), []byte(pkgPlaceholder))
 }
 
 // ---- cases ----
@@ -441,16 +478,45 @@ func pathKey(r *rand.Rand, l leaf, jsonMix bool) string {
 	return strings.Join(parts, ".")
 }
 
+// jsonSpell rewrites the elements of a dotted proto-name key to the fields' JSON names (where they resolve).
+func jsonSpell(r *rand.Rand, s *Schema, root, key string) string {
+	parts := strings.Split(key, ".")
+	m := s.msg(root)
+	for i, p := range parts {
+		if m == nil {
+			break
+		}
+		var f *FieldSpec
+		for j := range m.Fields {
+			if m.Fields[j].Name == p {
+				f = &m.Fields[j]
+			}
+		}
+		if f == nil {
+			break
+		}
+		if r.Intn(4) != 0 {
+			parts[i] = f.JSON
+		}
+		m = nil
+		if f.Kind == "message" && f.Card == "s" {
+			m = s.msg(f.Ref)
+		}
+	}
+	return strings.Join(parts, ".")
+}
+
 func parseableElem(l leaf) bool {
-	return l.f.Kind != "message" || isWKT(l.f.Ref) && l.f.Ref != "google.protobuf.Empty"
+	return l.f.Kind != "message" || isWKT(l.f.Ref) && l.f.Ref != "google.protobuf.Empty" && l.f.Ref != "google.protobuf.Any"
 }
 
 func isScalarLeaf(l leaf) bool {
-	return l.f.Card == "s" && (l.f.Kind != "message" || isWKT(l.f.Ref) && l.f.Ref != "google.protobuf.Empty")
+	return l.f.Card == "s" && parseableElem(l)
 }
 
 func genCase(r *rand.Rand, s *Schema, b *Built, op string) *tcCase {
 	c := &tcCase{Op: op, Schema: s, Root: "M0"}
+	genCtx.s, genCtx.b = s, b
 	ls := s.leaves("M0", 2)
 	var scal, lists, maps []leaf
 	for _, l := range ls {
@@ -565,6 +631,9 @@ func genCase(r *rand.Rand, s *Schema, b *Built, op string) *tcCase {
 			}
 			if r.Intn(3) == 0 {
 				k += "." + anyLeaf().names[0]
+			}
+			if r.Intn(2) == 0 {
+				k = jsonSpell(r, s, c.Root, k) // the same bound field, spelled with JSON names
 			}
 			addQ(k, common.Pick(r, []string{"1", "true", "x", "E0_ZERO"}))
 		case x < 18: // unknown / odd keys
